@@ -1279,7 +1279,15 @@ class Structure(UniqueMixin, metaclass=StructMeta):
                 self, REQUIRED_FIELDS
         ):
             raise ValueError(f"{key} is mandatory")
-        del self.__dict__[key]
+        old_value = self.__dict__.pop(key)
+        if getattr(self, "_instantiated", False) and not getattr(
+                self, "_skip_validation", False
+        ):
+            try:
+                self.__validate__()
+            except Exception:
+                self.__dict__[key] = old_value
+                raise
 
     def __validate__(self):
         pass
